@@ -15,7 +15,7 @@ import (
 	"testing"
 )
 
-func TestVerifOpenLoadStatError(t *testing.T) {
+func TestVerifLoadStatError(t *testing.T) {
 	dir := t.TempDir()
 	notDir := filepath.Join(dir, "plain_file")
 	if err := os.WriteFile(notDir, []byte("x"), 0o644); err != nil {
